@@ -39,7 +39,8 @@ from .registry import (
 from .utils import convert_args
 
 STRUCTURE_FN_TYPE = Callable[[Dict[str, ModelMeta]], ModelsStructureType]
-bool_js_style = lambda s: {"true": True, "false": False}.get(s, None)
+# Converts "true" / "false" strings (values of --code-generator-kwargs); boolean values (set by flags) are passed as is
+bool_js_style = lambda s: s if isinstance(s, bool) else {"true": True, "false": False}.get(s, None)
 
 
 class Cli:
